@@ -229,7 +229,8 @@ class FileProvider(ContentProvider):
                 raise BlacklistedSpec()
 
         resolved = os.path.realpath(self.path)
-        if not resolved.startswith(os.path.realpath(self.root)):
+        real_root = os.path.realpath(self.root).rstrip(os.sep) + os.sep
+        if not (resolved + os.sep).startswith(real_root):
             msg = "Relative path points outside the root: %s -> %s."
             raise Exception(msg % (self.path, resolved))
 
